@@ -14,4 +14,5 @@ def run(ctx):
         Part('ed_joins', 'corr_joins', 'run', [s, 250 if q else 5000, ['EDIT_DISTANCE']],
              specs={'complete_spec', 'sound_spec'}),
         Part('formulas', 'corr_formulas', 'run_std', [s, 300 if q else 3000]),
+        Part('join_loop_code', 'corr_joingen', 'run', [s, 150 if q else 3000], count_exceptions=False),
     ], RULE)
